@@ -26,6 +26,15 @@ CLAIMED["C18"] = (
     "three structural clauses of C18; exactly-once under stealing interleavings, idle detection and result ordering "
     "values are not decided; trusted: rustc type checker + MIR, extractor, rule tables",
     "DESIGN.md section 4 C18")
+CLAIMED["C16"] = (
+    "MIR atomic check-then-act detection (R-ATOM), lock-guard liveness coverage of named atomic operations "
+    "(R-LOCKCOV), raw-owner-pointer escape analysis (R-OWN) and compile-fail witnesses",
+    "static rules over MIR plus borrow-checker witnesses: the writer-exclusivity decision is a single RMW; version "
+    "assignment, live-count increment and threshold advance happen under token_chain_mutex; tokens are (not) tied to "
+    "their manager",
+    "three structural clauses of C16; quiescent counts and lazy-free-list age arithmetic are not decided; trusted: "
+    "rustc MIR + borrow checker, extractor, the (function, atomic, lock) table in props/C16.py",
+    "DESIGN.md section 4 C16")
 NA = {
     "C11": "sortedness/permutation/multiset equality of loops over data for all inputs and configurations is value-level; no structural clause is a necessary condition short of the result itself",
     "C12": "lexicographic order of all suffixes, exact LCP and search ranges are value-level for every construction algorithm",
